@@ -261,7 +261,10 @@ pub fn emit(parsed: &[(String, syn::File)], out: &std::path::Path) {
                 let tr_s = im.trait_.as_ref().map(|(_, p, _)| quote::quote!(#p).to_string().replace(' ', ""));
                 let take = match &tr_s {
                     None => true,
-                    Some(t) => t == "TryFrom<&[Signature<C>]>" || t == "TryFrom<&[u8]>",
+                    Some(t) => t == "TryFrom<&[Signature<C>]>" || t == "TryFrom<&[u8]>"
+                        // the one `+` of ElGamalCiphertext every other spelling delegates to
+                        || (self_name == "ElGamalCiphertext" && t == "Add<ElGamalCiphertext<C>>"
+                            && !matches!(&*im.self_ty, syn::Type::Reference(_))),
                 };
                 if !take {
                     continue;
